@@ -98,3 +98,41 @@ class _:
     }
     raises = {}
     modifies = ["Field._value", "NameParts.first", "NameParts.von", "NameParts.last", "NameParts.jr"]
+
+
+# ---- the two shipped conversion hooks ---------------------------------------------------------------------------------
+# Their converter objects are third-party (pylatexenc): attributes of kind 'ext'; a call of their conversion method is
+# ASSUMED (A-EXT) to return a str or raise some Exception and to write nothing the repository's objects can see.
+from pyvc.api import schema, external_method  # noqa: E402
+
+schema({"LatexEncodingMiddleware": {"_encoder": "ext"}, "LatexDecodingMiddleware": {"_decoder": "ext"}})
+external_method("unicode_to_latex", "str")
+external_method("latex_to_text", "str")
+
+_HOOK_ENSURES = {
+    "C18.failure-keeps-text": "result[1] == '' or result[0] == python_string",
+}
+_HOOK_PATH = {
+    "C18.failure-has-message": ("ext.", "len(result[1]) > 0 and result[0] == python_string"),
+}
+
+
+@contract(LX + "LatexEncodingMiddleware._transform_python_value_string")
+class _:
+    """whatever exception the third-party encoder raises is turned into (the unchanged text, a NON-EMPTY message);
+    nothing is raised, nothing is written"""
+    sorts = {"self": "ref:LatexEncodingMiddleware", "python_string": "str", "result": "tuple:str,str"}
+    ensures = dict(_HOOK_ENSURES)
+    path_ensures = dict(_HOOK_PATH)
+    raises = {}
+    modifies = []
+
+
+@contract(LX + "LatexDecodingMiddleware._transform_python_value_string")
+class _:
+    """as for the encoder"""
+    sorts = {"self": "ref:LatexDecodingMiddleware", "python_string": "str", "result": "tuple:str,str"}
+    ensures = dict(_HOOK_ENSURES)
+    path_ensures = dict(_HOOK_PATH)
+    raises = {}
+    modifies = []
